@@ -241,6 +241,31 @@ class FunctionIndirectInteractionUtils(object):
         return res
 
 
+    @staticmethod
+    def check_load_order(
+        fis: FunctionIndirectInteractions, all_stores: Set[DDSPath]
+    ) -> None:
+        """
+        Checks, following the order of the calls, that a path produced by the evaluation is not loaded
+        before the call that produces it has completed.
+        """
+        produced: Set[DDSPath] = set()
+
+        def rec(fis0: FunctionIndirectInteractions) -> None:
+            for dep in fis0.indirect_deps:
+                if isinstance(dep, FunctionIndirectInteractions):
+                    rec(dep)
+                elif dep in all_stores and dep not in produced:
+                    raise DDSException(
+                        f"The path {dep} is loaded in {fis0.fun_path} before it is produced in the same "
+                        f"evaluation. Suggestion: call the function that produces {dep} before loading it."
+                    )
+            if fis0.store_path is not None:
+                produced.add(fis0.store_path)
+
+        rec(fis)
+
+
 class SupportedTypeUtils(object):
     @staticmethod
     def from_type(t: type) -> SupportedType:
